@@ -36,6 +36,9 @@ STRUCTS = {
                      "cons": [["c0", ["y", "x"]], ["c1", ["z", "y"]], ["c2", ["z", "x"]]]},
     "triangle_mix": {"vars": {"x": 2, "y": 2, "z": 2},
                      "cons": [["c0", ["x", "y"]], ["c1", ["z", "y"]], ["c2", ["x", "z"]]]},
+    # triangle x-y-z with a pendant w attached to x (diameter 2)
+    "tri_pendant": {"vars": {"x": 2, "y": 2, "z": 2, "w": 2},
+                    "cons": [["c0", ["x", "y"]], ["c1", ["x", "z"]], ["c2", ["y", "z"]], ["c3", ["x", "w"]]]},
     "pair_dbl":    {"vars": {"x": 2, "y": 2}, "cons": [["c0", ["x", "y"]], ["c1", ["x", "y"]]]},
 }
 
